@@ -34,6 +34,7 @@ var negExempt = map[string]string{
 	"xmpp.writeStreamFeatures": "negotiation phase",
 	"xmpp.readStreamFeatures":  "negotiation phase",
 	"xmpp.negotiator$1":        "negotiation phase",
+	"xmpp.mandatoryLeft":       "negotiation phase: called by negotiateFeatures only (checked: C10.6 who-may-call)",
 }
 
 // encoderWrites lists, per function, the nodes that write through the session
@@ -410,6 +411,13 @@ func runC10(p *eng.Prog, r *eng.Report, tier string) {
 
 	// ---- C10.6 lock discipline ------------------------------------------------------------------
 	lockDiscipline(c, "C10.6", "xmpp.Session.state", "xmpp.Session.stateMutex", negExempt, 8)
+	// a helper is exempt only as long as nothing but negotiation code calls it
+	for _, f := range c.allFns() {
+		for _, cl := range f.CallsDeep("xmpp.mandatoryLeft") {
+			_, neg := negExempt[f.Short]
+			c.r.Check("C10.6", f, "call of mandatoryLeft", "C: the helper that reads Session.state without the mutex is called by negotiation code only", cl.Pos(), neg, "called from "+f.Short+", which is not part of the single-goroutine negotiation phase")
+		}
+	}
 	exIn := map[string]string{"xmpp.negotiateSession": "construction"}
 	lockDiscipline(c, "C10.6", "xmpp.Session.in.ctx", "xmpp.Session.stateMutex", exIn, 2)
 	lockDiscipline(c, "C10.6", "xmpp.Session.in.cancel", "xmpp.Session.stateMutex", exIn, 2)
